@@ -57,6 +57,7 @@ class LifecycleMonitor(Monitor):
         self.threads = set()
         self.msgs = {}       # serial -> list of payloads
         self.delivered_probes = set()
+        self.tag_delivered = set()
         self.objs = {}
 
     def state_tuple(self):
@@ -115,6 +116,7 @@ class LifecycleMonitor(Monitor):
                 who = (int(idx), int(sess))
             except Exception:
                 return
+            self.tag_delivered.add((int(idx), int(sess), int(n)))
             if self.owner.get(sid) is not None and self.owner[sid] != who:
                 self.flag("own-messages", "a client's message was handed to the handler with another client object", "payload of %r delivered as client #%d = %r" % (who, sid, self.owner[sid]))
             if b"probe" in payload:
@@ -195,6 +197,8 @@ def menu(w, mon, ts, tick):
             out.append(("authenticated client 1 sends inner types %s" % "/".join(str(t.value) for t in types), act))
     for ev in EVENTS:
         out.append(("handler raises in the next %s" % ev, lambda ev=ev: w.handler.raise_in.add(ev)))
+    for ev in ("handle_message", "update"):
+        out.append(("handler raises in every %s from now on" % ev, lambda ev=ev: w.handler.raise_always.add(ev)))
     for ev in ("connect", "handle_message", "disconnect"):
         def arm(ev=ev, what="disconnect"):
             def hook(w_, client, *a):
@@ -234,6 +238,7 @@ def scenario(params, ch):
             deviate(0)
         connect_client(w, 0)
         connect_client(w, 1)
+        bundles = []
         shutdown_at = 80     # later than (last deviation tick + connection timeout of 32 ticks): silence timeouts happen inside the run
         for t in range(1, 170):
             if t in ticks:
@@ -241,6 +246,13 @@ def scenario(params, ch):
             if t == 8:
                 client_send(w, 0)
                 client_send(w, 1)
+            if t == 10 and w.clients[1].client is not None and w.clients[1].client.conn is not None:
+                # three messages queued in one frame travel in ONE datagram: the handler sees all of them or none
+                ce1 = w.clients[1]
+                first = ce1.nsent + 1
+                for _ in range(3):
+                    client_send(w, 1, b"bundle")
+                bundles.append((1, ce1.session, tuple(range(first, ce1.nsent + 1))))
             if t == 12:
                 client_send(w, 1)
             if t == 16 and w.clients[0].client.conn is not None:
@@ -270,6 +282,10 @@ def scenario(params, ch):
         left = [s for s, st in mon.state.items() if st == "connected"]
         if left:
             ch.flag("disconnect-once", "after shutdown a connected client never got its disconnect event", "%r" % left)
+        for idx, sess, ns in bundles:
+            got = [n for n in ns if (idx, sess, n) in mon.tag_delivered]
+            if got and len(got) != len(ns):
+                ch.flag("events-keep-flowing", "messages that arrived in one datagram were only partly handed to the handler", "client %d session %d: bundle %r, handler saw %r" % (idx, sess, ns, got))
         for who in locals().get("probes", []):
             # the probe only has to arrive if nothing (deviation or default program) ended that client before it could
             sid = [s for s, o in mon.owner.items() if o == who]
